@@ -19,6 +19,7 @@
 #include "clang/AST/DeclCXX.h"
 #include "clang/AST/DeclTemplate.h"
 #include "clang/AST/ExprCXX.h"
+#include "clang/AST/Mangle.h"
 #include "clang/AST/ParentMapContext.h"
 #include "clang/AST/RecursiveASTVisitor.h"
 #include "clang/AST/StmtCXX.h"
@@ -787,6 +788,15 @@ class Extractor {
         o["line"] = lineOf(patternOf(FD)->getLocation());
         o["exp_file"] = fileOf(FD->getLocation(), false);
         o["end_line"] = lineOf(patternOf(FD)->getEndLoc());
+        if (!isa<CXXConstructorDecl>(FD) && !isa<CXXDestructorDecl>(FD)) {
+            ASTNameGenerator NG(Ctx);
+            o["mangled"] = NG.getName(FD);
+        } else {
+            ASTNameGenerator NG(Ctx);
+            json::Array ms;
+            for (auto& n : NG.getAllManglings(FD)) ms.push_back(n);
+            o["mangled_all"] = std::move(ms);
+        }
         o["invalid"] = FD->isInvalidDecl();
         o["access"] = accessStr(FD->getAccess());
         o["is_instantiation"] = FD->isTemplateInstantiation();
